@@ -789,3 +789,79 @@ def impls(items, iface):
         if it[0] == "implement" and it[1] == iface:
             out.append((type_name(it[2]), {f[1]: f for f in it[3]}, it))
     return out
+
+
+# ---------------------------------------------------------------- canonical value trees
+
+
+def _subst(n, env):
+    """Copy of an AST fragment with `var` nodes naming a key of env replaced by the mapped expression."""
+    if isinstance(n, tuple):
+        if len(n) >= 2 and n[0] == "var" and n[1] in env:
+            return env[n[1]]
+        return tuple(_subst(x, env) for x in n)
+    if isinstance(n, list):
+        return [_subst(x, env) for x in n]
+    return n
+
+
+def _ends_in_return(b):
+    return isinstance(b, tuple) and b and b[0] == "block" and b[1] and b[1][-1][0] == "return"
+
+
+def canon(e, env=None):
+    """The value of an expression / function body as one tree: immutable `let x = e` bindings are substituted into what follows,
+    `if c { return v }` followed by more statements becomes `if c { v } else { rest }`, `return v` at the end is `v`, and a block
+    holding a single expression is that expression.  Statements with effects (loops, assignments, `var`) are kept, in a
+    ("seq", stmt, rest) node.  Two bodies that differ only by early-return style or by naming an intermediate value have the
+    same canonical tree (up to line numbers; compare with show())."""
+    env = env or {}
+    if not isinstance(e, tuple) or not e:
+        return e
+    k = e[0]
+    if k == "block":
+        return _canon_stmts(e[1], env, e[-1])
+    if k == "if":
+        return ("if", _subst(e[1], env), canon(e[2], env), canon(e[3], env) if e[3] is not None else None, e[-1])
+    return _subst(e, env)
+
+
+def _canon_stmts(stmts, env, line):
+    if not stmts:
+        return ("nil", line)
+    s, rest = stmts[0], stmts[1:]
+    if s[0] == "let" and not s[1] and s[2][0] == "pbind":
+        env2 = dict(env)
+        env2[s[2][1]] = canon(s[4], env)
+        return _canon_stmts(rest, env2, line) if rest else ("nil", line)
+    if s[0] == "return":
+        return canon(s[1], env) if s[1] is not None else ("nil", line)
+    if s[0] == "expr":
+        if not rest:
+            return canon(s[1], env)
+        x = s[1]
+        if x[0] == "if" and x[3] is None and _ends_in_return(x[2]):
+            return ("if", _subst(x[1], env), canon(x[2], env), _canon_stmts(rest, env, line), x[-1])
+        if x[0] == "if" and x[3] is not None and _ends_in_return(x[2]) and _ends_in_return(x[3]):
+            return canon(x, env)
+    # a name rebound by this statement no longer stands for its earlier expression
+    env2 = dict(env)
+    if s[0] == "let":
+        for p in walk(s[2]):
+            if isinstance(p, tuple) and p and p[0] == "pbind":
+                env2.pop(p[1], None)
+    return ("seq", _subst(s, env), _canon_stmts(rest, env2, line) if rest else ("nil", line), line)
+
+
+def inline_lets(block):
+    """The block with its top-level immutable `let x = e` statements removed and x replaced by e in the statements after them."""
+    if not (isinstance(block, tuple) and block and block[0] == "block"):
+        return block
+    env = {}
+    out = []
+    for s in block[1]:
+        if s[0] == "let" and not s[1] and s[2][0] == "pbind":
+            env[s[2][1]] = _subst(s[4], env)
+            continue
+        out.append(_subst(s, env))
+    return ("block", out, block[-1])
